@@ -1,16 +1,17 @@
 #!/bin/sh
 # usage: harness/seedtest.sh <seeded-dir-name> [tier]
-# applies /verif/seeded/<name>/patch.diff to /repo, runs the check of the property it breaks, undoes the patch.
-# prints CAUGHT / MISSED.  /repo must be clean before.
+# applies /verif/seeded/<name>/patch.diff to a scratch worktree of /repo's HEAD, runs the check of the property it
+# breaks against that tree (VERIF_REPO), removes the worktree.  prints CAUGHT / MISSED.
+# (equivalent to `git -C /repo apply` ... `git -C /repo checkout -- .`, but does not disturb other runs that use /repo)
 set -u
 DIR="$(cd "$(dirname "$0")/.." && pwd)"
 S="$DIR/seeded/$1"
 TIER="${2:-quick}"
 PROP=$(python3 -c "import json,sys;print(json.load(open('$S/meta.json'))['property'])")
-if [ -n "$(git -C /repo status --porcelain)" ]; then echo "/repo not clean"; exit 2; fi
-git -C /repo apply "$S/patch.diff" || { echo "patch does not apply"; exit 2; }
-"$DIR/check" "$PROP" --tier "$TIER" > "$S/last_run.txt" 2>&1
+WT=/tmp/seedtest_$$
+git -C /repo worktree add -q --detach $WT HEAD || exit 2
+git -C $WT apply "$S/patch.diff" || { echo "patch does not apply"; git -C /repo worktree remove --force $WT; exit 2; }
+VERIF_REPO=$WT "$DIR/check" "$PROP" --tier "$TIER" > "$S/last_run.txt" 2>&1
 rc=$?
-git -C /repo checkout -- . 
-git -C /repo clean -fdq
+git -C /repo worktree remove --force $WT
 if [ $rc -ne 0 ] && grep -q "^VIOLATION property=$PROP" "$S/last_run.txt"; then echo "CAUGHT $1 ($PROP, $TIER): $(grep -c '^VIOLATION' "$S/last_run.txt") violation line(s)"; else echo "MISSED $1 ($PROP, $TIER) rc=$rc"; fi
